@@ -107,3 +107,36 @@ func vTransOK(t pr.SDimensions) bool {
 //@   loop 4 invariant sum == sum(skippedLevels, 0, rangeindex + 1) && len(skippedLevels) <= len(lastByDepth)
 //@   loop 4 invariant len(skippedLevels) + sum(skippedLevels, 0, len(skippedLevels)) == level && level >= 1
 //@   loop 4 decreases len(skippedLevels) - rangeindex
+
+// Anchors: "in case of duplicate IDs, only the first is an anchor": the map of a page's
+// anchors is written only for a non-empty name that is not yet a key; a bookmark is recorded
+// only with a non-empty label and a level other than 0.
+// The rectangle of a link under a transform is the axis-aligned bounding box of the four
+// transformed corners: it contains each of them and each side touches one.
+//@ func rectangleAabb
+//@   props C14
+//@   nopanic
+//@   modifies nothing
+//@   ensures result[0] <= x1 && result[0] <= x2 && result[0] <= x3 && result[0] <= x4 && in(result[0], x1, x2, x3, x4)
+//@   ensures result[1] <= y1 && result[1] <= y2 && result[1] <= y3 && result[1] <= y4 && in(result[1], y1, y2, y3, y4)
+//@   ensures result[2] >= x1 && result[2] >= x2 && result[2] >= x3 && result[2] >= x4 && in(result[2], x1, x2, x3, x4)
+//@   ensures result[3] >= y1 && result[3] >= y2 && result[3] >= y3 && result[3] >= y4 && in(result[3], y1, y2, y3, y4)
+//@   ensures[corners] x1 == matrix.A*posX + matrix.C*posY + matrix.E && y1 == matrix.B*posX + matrix.D*posY + matrix.F && x4 == matrix.A*(posX+width) + matrix.C*(posY+height) + matrix.E && y4 == matrix.B*(posX+width) + matrix.D*(posY+height) + matrix.F
+//@   ensures[corners2] x2 == matrix.A*(posX+width) + matrix.C*posY + matrix.E && y3 == matrix.B*posX + matrix.D*(posY+height) + matrix.F
+
+//@ func gatherLinksAndBookmarks
+//@   props C14
+//@   modifies anything
+//@   unclaimed call-getMatrix@1-pre* "the transform-related style values of a laid-out box are resolved (preconditions of getMatrix, decided under C17)"
+//@   call mapupdate#1 assert arg1 != "" && !haskey(anchors, arg1) && arg1 == anchorName
+//@   call append#2 assert bookmarkLevel != 0 && bookmarkLabel != ""
+
+// Internal links: an anchor name is emitted (with its position) the first time a page
+// defines it and never again; an internal link is kept only if its target is such a name,
+// external links are kept as they are.
+//@ func (*Document).resolveLinks
+//@   props C14
+//@   modifies anything
+//@   call append#1 assert !haskey(anchors, anchorName) && arg1[0].Name == anchorName
+//@   call append#2 assert link.Type == "internal" && haskey(anchors, link.Target)
+//@   call append#3 assert link.Type != "internal"
